@@ -4,6 +4,7 @@
 (*   accept s    a TCP connection of the client arrived at server s            (the client took the slot before)      *)
 (*   up s        server s got the shell request of a session, before answering (the client gives the slot back after) *)
 (*   fail s      server s is about to drop the connection in the handshake      (the client gives the slot back after) *)
+(*   drop s      server s is about to close an established session              (the client dials s again after 2 s)   *)
 (* A slot is therefore held at least from "accept" to "up"/"fail": Take is placed at the accept event (later than in   *)
 (* the client) and the release at up/fail (earlier than in the client), so the model's occupancy is a lower bound of   *)
 (* the client's.  A trace in which more than K connections are between accept and up/fail at once is rejected.         *)
@@ -14,16 +15,18 @@ VARIABLE l
 tvars == <<vars, l>>
 Ev == Tr[l]
 IsEv(name) == l <= Len(Tr) /\ Ev.ev = name /\ Ev.s \in Servers /\ l' = l + 1
-\* a server whose earlier connection is over is dialled again (retry mode): Again, or a new session after "up" ended
-Redial(s) == st[s] \in {"failed", "up"} /\ Retry
+\* a server whose earlier connection is over is dialled again (retry mode): Again happened in the client.  A connection
+\* arriving at a server whose session is still up is NOT a behaviour: the client never holds two connections to one server.
+Redial(s) == st[s] \in {"failed", "ended"} /\ Retry
 TAccept == IsEv("accept") /\ LET s == Ev.s IN
               /\ st[s] \in {"waiting"} \/ Redial(s)
               /\ slots < K
               /\ st' = [st EXCEPT ![s] = "dialing"] /\ slots' = slots + 1 /\ UNCHANGED contacted
 TUp     == IsEv("up") /\ Established(Ev.s)
 TFail   == IsEv("fail") /\ Fail(Ev.s)
+TDrop   == IsEv("drop") /\ SessionEnd(Ev.s)
 TInit == Init /\ l = 1
-TNext == TAccept \/ TUp \/ TFail
+TNext == TAccept \/ TUp \/ TFail \/ TDrop
 TSpec == TInit /\ [][TNext]_tvars
 Report == (l = Len(Tr) + 1) => PrintT(<<"ACCEPTED", contacted = Live, Cardinality(contacted)>>)
 Progress == PrintT(<<"REACHED", l>>)
